@@ -50,34 +50,22 @@ func execC14(in string) string {
 		utoa(uint64(st)), hexTok([]byte(st.String())), bit(st.IsValid()),
 		errTok(psatoken.ValidateSecurityLifeCycle(v)),
 	}
-	mk := func(name string) (psatoken.IClaims, **uint16) {
+	mk := func(name string) psatoken.IClaims {
 		c, err := psatoken.NewClaims(name)
 		if err != nil {
 			panic(err)
 		}
-		switch t := c.(type) {
-		case *psatoken.P1Claims:
-			return c, &t.SecurityLifeCycle
-		case *psatoken.P2Claims:
-			return c, &t.SecurityLifeCycle
-		}
-		panic("unexpected claims type")
+		return c
 	}
 	for _, name := range []string{psatoken.Profile1Name, psatoken.Profile2Name} {
-		c, slot := mk(name)
+		c := mk(name)
 		if pre != nil {
-			p := *pre
-			*slot = &p
+			setIntPtrField(c, "SecurityLifeCycle", true, int64(*pre))
 		}
 		out = append(out, guard(func() string { return errTok(c.SetSecurityLifeCycle(v)) }))
-		if *slot == nil {
-			out = append(out, "_")
-		} else {
-			out = append(out, utoa(uint64(**slot)))
-		}
-		c2, slot2 := mk(name)
-		vv := v
-		*slot2 = &vv
+		out = append(out, intPtrFieldTok(c, "SecurityLifeCycle"))
+		c2 := mk(name)
+		setIntPtrField(c2, "SecurityLifeCycle", true, int64(v))
 		out = append(out, guard(func() string {
 			g, err := c2.GetSecurityLifeCycle()
 			if err != nil {
